@@ -44,6 +44,11 @@ class Boom(Exception):
         super().__init__(bid)
         self.bid = bid
 
+    def __bool__(self) -> bool:
+        # every third error raised by generated code is an object whose truth value is
+        # False (an empty error collection looks like this): still an error like any other
+        return not (isinstance(self.bid, int) and self.bid % 3 == 0)
+
 
 def flatten(e: BaseException | None) -> list[BaseException]:
     if e is None:
@@ -807,7 +812,7 @@ class Run:
                     # expectation is computed at the exit instant, before __exit__ runs
                     expect_absorb = n.cancelled and not self.sh.parent_visible(n)
                     self.sh.exit(tid, n)
-                    self.ev(tid, "scope-exit", sid, type(exc).__name__ if exc else None)
+                    self.ev(tid, "scope-exit", sid, type(exc).__name__ if exc is not None else None)
 
             propagated = False
         except BaseException as e2:
@@ -1049,7 +1054,7 @@ class Run:
                 self.sh.exit(tid, n)
 
         self.in_aexit.pop(gid, None)
-        g["exited"] = self.ev(tid, "group-exit", gid, type(block_exc).__name__ if block_exc else None)
+        g["exited"] = self.ev(tid, "group-exit", gid, type(block_exc).__name__ if block_exc is not None else None)
         self.exited_scopes.append((tg.cancel_scope, gname, self.cyc()))
         try:
             self.judge_group_exit(g, n, block_exc, expect_absorb, cancelling_before, tid)
@@ -1322,6 +1327,14 @@ class Run:
                 self.V("C07", "first-started-call-refused", {"tid": tid, "exc": repr(e)})
             else:
                 self.window("second_started_refused")
+                since = self.sh.eff_since.get(starter) if starter is not None else None
+                if (info.get("starter_was_cancelled") and since is not None
+                        and self.cyc() - since[1] >= 3):  # fmt: skip
+                    # "... unless the caller has been cancelled in the meantime": the caller
+                    # has been effectively cancelled for 3+ cycles and already was at the
+                    # previous started() call
+                    self.V("C07", "second-started-refused-although-the-caller-was-cancelled",
+                           {"tid": tid, "exc": repr(e)})  # fmt: skip
         except BaseException as e:  # noqa: BLE001
             self.V("C07", "exc!", {"op": "started", "exc": repr(e)})
         else:
